@@ -810,7 +810,8 @@ impl<'a> Gen<'a> {
                     0 => Ret::Ok,
                     _ => Ret::Parse,
                 };
-                Ev::Handler(HScript { calls, prompt, ret })
+                let prompt_first = self.rng.chance(1, 3);
+                Ev::Handler(HScript { calls, prompt, ret, prompt_first })
             }
         })
     }
@@ -890,6 +891,7 @@ pub fn generate(profile: &Profile, seed: u64) -> Trace {
             calls,
             prompt: None,
             ret: Ret::Parse,
+            prompt_first: false,
         })));
     }
     let mut guard = 0;
@@ -999,6 +1001,7 @@ pub fn scenario(seed: u64, kind: usize) -> Trace {
         ],
         prompt: if rng.chance(1, 4) { Some(rng.below(PROMPTS.len())) } else { None },
         ret: Ret::Parse,
+        prompt_first: rng.chance(1, 2),
     };
     match kind % N_SCENARIO_KINDS {
         0 => {
@@ -1099,7 +1102,7 @@ pub fn scenario(seed: u64, kind: usize) -> Trace {
             let calls: Vec<WCall> = WKind::ALL.iter().map(|k| WCall { kind: *k, text: rng.pick(OUT_TEXTS).to_string() }).collect();
             push_str(&mut ev, "ab");
             ev.push(Event::new(Ev::Write(calls.clone(), Ret::Ok)));
-            ev.push(Event::new(Ev::Handler(HScript { calls, prompt: None, ret: Ret::Parse })));
+            ev.push(Event::new(Ev::Handler(HScript { calls, prompt: None, ret: Ret::Parse, prompt_first: false })));
             push_str(&mut ev, "\r");
         }
         13 => {
@@ -1108,6 +1111,7 @@ pub fn scenario(seed: u64, kind: usize) -> Trace {
                 calls: vec![WCall { kind: *rng.pick(&WKind::ALL), text: "partial".into() }],
                 prompt: Some(rng.below(PROMPTS.len())),
                 ret: Ret::Parse,
+                prompt_first: true,
             })));
             push_str(&mut ev, "nosuch 1\r");
             push_str(&mut ev, *rng.pick(&others[..]));
